@@ -594,7 +594,8 @@ class FuncAnalysis:
         self._defcount = getattr(self, '_defcount', {})
         self._defcount[s.name] = self._defcount.get(s.name, 0) + 1
         nm = s.name if self._defcount[s.name] == 1 else f'{s.name}#{self._defcount[s.name]}'
-        qual = self.fi.qualname + '.<locals>.' + nm
+        owner = self._inline_stack[-1] if getattr(self, '_inline_stack', None) else self.fi.qualname
+        qual = owner + '.<locals>.' + nm
         self.env[s.name] = ('fn', qual)
         self.nested[nm] = qual
         self.closures[qual] = dict(self.env)
@@ -1028,6 +1029,15 @@ class FuncAnalysis:
                     return st
             return None
         it = self.ev(s.iter)
+        if isinstance(s.iter, ast.Name) and it[0] in ('list', 'tuple') and 1 <= len(it[1]) <= 8 and self._unrollable_body(s) \
+                and all(e[0] == 'c' or (e[0] == 'tuple' and e[1] and all(x[0] == 'c' for x in e[1])) for e in it[1]):
+            # ... also when the literal list has a name (and is never changed: it is still a literal here)
+            for e in it[1]:
+                self._assign(s.target, e, s)
+                st = self._block(s.body)
+                if st is not None:
+                    return st
+            return None
         if it[0] == 'call' and it[1][0] == 'attr' and it[1][2] == 'keys' and not it[2] and not it[3]:
             it = it[1][1]           # iterating a mapping is iterating its keys
         indexed = None
@@ -1060,6 +1070,12 @@ class FuncAnalysis:
         def simple(e):
             return isinstance(e, ast.Constant) or (isinstance(e, ast.Tuple) and e.elts and all(isinstance(x, (ast.Constant, ast.Name)) for x in e.elts))
         if not all(simple(e) for e in s.iter.elts):
+            return False
+        return FuncAnalysis._unrollable_body(s)
+
+    @staticmethod
+    def _unrollable_body(s):
+        if s.orelse:
             return False
         # no break / continue that belongs to this loop
         stack = list(s.body)
@@ -1272,7 +1288,10 @@ class FuncAnalysis:
         k = ('$a', base, name)
         if k in self.env:
             return self.env[k]
-        return T.attr(base, name)
+        t = T.attr(base, name)
+        if self.versioned and t in self._ver:
+            return ('mut', t, self._ver[t])
+        return t
 
     def _e_Attribute(self, n):
         return self._load_attr(self.ev(n.value), n.attr)
@@ -1290,7 +1309,12 @@ class FuncAnalysis:
         k = ('$s', base, key)
         if k in self.env:
             return self.env[k]
-        return T.sub(base, key)
+        t = T.sub(base, key)
+        # an object that was changed in place is the changed object however it is reached again
+        # (through a name bound to it or through the same expression)
+        if self.versioned and t in self._ver:
+            return ('mut', t, self._ver[t])
+        return t
 
     def _e_Subscript(self, n):
         return self._load_sub(self.ev(n.value), self._ev_index(n.slice))
@@ -1554,8 +1578,8 @@ class FuncAnalysis:
         fi = repo.funcs[q]
         a = fi.node.args
         if fi.parent is not None or fi.node.decorator_list or a.vararg or a.kwarg \
-                or any(isinstance(x, (ast.Yield, ast.YieldFrom, ast.Await, ast.FunctionDef, ast.AsyncFunctionDef, ast.ClassDef,
-                                      ast.Global, ast.Nonlocal)) for x in ast.walk(fi.node) if x is not fi.node):
+                or any(isinstance(x, (ast.Await, ast.ClassDef, ast.Global, ast.Nonlocal)) for x in ast.walk(fi.node) if x is not fi.node) \
+                or any(isinstance(x, (ast.Yield, ast.YieldFrom)) for x in _walk_no_defs(fi.node.body)):
             return False, None
         pos = [x.arg for x in list(a.posonlyargs) + list(a.args)]
         params = pos[skip:]
